@@ -447,9 +447,10 @@ impl<'a, 'b> Gen<'a, 'b> {
                     self.sym("}");
                 } else {
                     self.sym("=");
-                    match self.t.below(5) {
+                    match self.t.below(6) {
                         0 => self.string_lit(),
                         1 => self.number(),
+                        5 => self.const_primary_more(),
                         _ => self.const_expr(2),
                     }
                 }
@@ -976,8 +977,12 @@ impl<'a, 'b> Gen<'a, 'b> {
         let saved = self.vars.len();
         let nd = self.t.weighted(&[6, 2, 1]);
         for _ in 0..nd {
-            self.tag("block-local-declaration");
-            self.var_declaration();
+            if self.t.chance(1, 6) {
+                self.block_parameter_declaration();
+            } else {
+                self.tag("block-local-declaration");
+                self.var_declaration();
+            }
         }
         let ns = self.t.below(4);
         for _ in 0..ns {
@@ -1714,7 +1719,8 @@ impl<'a, 'b> Gen<'a, 'b> {
                 2 => {
                     // state-dependent path
                     self.tag("specify-state-dependent");
-                    if self.t.chance(1, 5) {
+                    let ifnone = self.t.chance(1, 5);
+                    if ifnone {
                         self.kw("ifnone");
                     } else {
                         self.kw("if");
@@ -1722,12 +1728,31 @@ impl<'a, 'b> Gen<'a, 'b> {
                         self.module_path_expr(2);
                         self.sym(")");
                     }
-                    self.sym("(");
-                    self.var_ref_ident_only();
-                    let op = *self.t.pick(&["=>", "*>"]);
-                    self.sym(op);
-                    self.var_ref_ident_only();
-                    self.sym(")");
+                    // ifnone takes a simple path only
+                    if !ifnone && self.t.chance(1, 3) {
+                        // if ( module_path_expression ) edge_sensitive_path_declaration
+                        self.tag("specify-state-dependent-edge");
+                        self.sym("(");
+                        let e = *self.t.pick(&["posedge", "negedge", "edge"]);
+                        self.kw(e);
+                        self.var_ref_ident_only();
+                        let op = *self.t.pick(&["=>", "*>"]);
+                        self.sym(op);
+                        self.sym("(");
+                        self.var_ref_ident_only();
+                        let p = *self.t.pick(&["+:", "-:", ":"]);
+                        self.sym(p);
+                        self.var_ref_ident_only();
+                        self.sym(")");
+                        self.sym(")");
+                    } else {
+                        self.sym("(");
+                        self.var_ref_ident_only();
+                        let op = *self.t.pick(&["=>", "*>"]);
+                        self.sym(op);
+                        self.var_ref_ident_only();
+                        self.sym(")");
+                    }
                     self.sym("=");
                     self.path_delay_value();
                     self.sym(";");
